@@ -435,12 +435,48 @@ def r4_bounds(repo):
     return obs
 
 
+def r5_structural_equality(repo):
+    """is_subtype starts from `other == self`: equality of types must be structural."""
+    obs = []
+    want = {
+        "ParameterizedType": ["type_args", "t_constructor.type_parameters", "name"],
+        "WildCardType": ["variance", "bound"],
+        "TypeParameter": ["name", "variance", "bound"],
+        "SimpleClassifier": ["name", "supertypes"],
+    }
+    for cn, attrs in want.items():
+        c = repo.cls(T + "." + cn)
+        m = c.methods.get("__eq__")
+        if m is None:
+            raise AnalysisError("%s.__eq__ missing" % cn, rule="C06-R5", anchor=c.qualname)
+        o = m.params[1]
+        cmps = [n for n in iter_own_nodes(m.node) if isinstance(n, ast.Compare) and len(n.ops) == 1 and
+                isinstance(n.ops[0], ast.Eq)]
+        direct = set()
+        wrapped = []
+        for cp in cmps:
+            l, r = cp.left, cp.comparators[0]
+            if isinstance(l, ast.Attribute) and isinstance(r, ast.Attribute) and src(l).startswith("self.") and \
+                    src(r).startswith(o + ".") and src(l)[5:] == src(r)[len(o) + 1:]:
+                direct.add(src(l)[5:])
+            elif any(isinstance(x, ast.Call) and call_name(x) in ("str", "get_name", "repr", "format", "hash")
+                     for x in ast.walk(cp)):
+                wrapped.append(src(cp)[:70])
+        missing = [a for a in attrs if a not in direct]
+        obs.append(Ob("C06-R5", "%s.__eq__:structural" % cn, _w(m), not missing and not wrapped,
+                      "%s.__eq__ must compare %s attribute by attribute (self.x == other.x); missing direct comparisons: %s; "
+                      "comparisons through a textual rendering (which prints nested projections ambiguously): %s"
+                      % (cn, attrs, missing, wrapped)))
+    return obs
+
+
 def rules():
     return [
         RuleSpec("C06-R1", "containment direction per governing variance (every return)", 10, r1_containment),
         RuleSpec("C06-R2", "all type arguments of the same constructor are checked", 5, r2_all_args),
         RuleSpec("C06-R3", "every positive-capable answer of is_subtype/is_assignable is a sound shape", 29, r3_positive),
         RuleSpec("C06-R4", "bounds are consulted (type variables, wildcards, type constructors)", 5, r4_bounds),
+        RuleSpec("C06-R5", "equality of types is structural (is_subtype starts from ==)", 4, r5_structural_equality),
     ]
 
 
@@ -514,6 +550,12 @@ def _v_collision_dropped(tree):
     f.body[-1].value = ast.Constant(value=True)
 
 
+def _v_eq_by_string(tree):
+    f = V.find_def(tree, "ParameterizedType.__eq__")
+    r = f.body[-1]
+    r.value = V.parse_expr("self.name == other.name and str(self.supertypes) == str(other.supertypes) and str(self.type_args) == str(other.type_args) and str(self.t_constructor.type_parameters) == str(other.t_constructor.type_parameters)")
+
+
 def _t_rename(tree):
     f = _contained(tree)
     V.rename_local(f, "is_wildcard", "w1")
@@ -534,6 +576,7 @@ def variants():
         V.Variant("wildcard pair needs only one covariant side", t, _v_wildcard_contra, {"C06-R3", "C06-R4"}),
         V.Variant("Short assignable to String (java)", "src/ir/java_types.py", _v_int_widening, {"C06-R3"}),
         V.Variant("type-variable collision test dropped", t, _v_collision_dropped, {"C06-R3", "C06-R4"}),
+        V.Variant("ParameterizedType.__eq__ compares textual renderings", t, _v_eq_by_string, {"C06-R5"}),
         V.Variant("twin: rename wildcard flags", t, _t_rename, None, twin=True),
         V.Variant("twin: whole tree reformatted by ast.unparse", None, None, None, twin=True),
     ]
